@@ -44,7 +44,7 @@ def _case(draw, unit):
             'N': draw(st.sampled_from([1, 1, 2, 3])), 'C': draw(st.sampled_from([1, 2, 3, 3, 7])),
             'dtype': draw(st.sampled_from(['f64', 'f64', 'f64', 'f32'])),
             'filt_form': draw(st.sampled_from(['names', 'names', 'names', 'tuples'])),
-            'reused': draw(st.integers(0, 2)) == 0, 'ctx': draw(st.sampled_from(core.GRAD_CTXS)),
+            'reused': draw(st.integers(0, 2)) == 0, 'other_precision_first': draw(st.integers(0, 3)) == 0, 'ctx': draw(st.sampled_from(core.GRAD_CTXS)),
             'layout': list(draw(st.sampled_from([(2, -1)] * 5 + LAYOUT_POOL))),
             'rx': draw(core.recipe_strategy()), 'k': draw(st.integers(0, 10**6))}
 
@@ -93,6 +93,10 @@ def _run_case(case):
                 fwd = fresh         # buffers of the twin do not have the same shapes: no reuse possible
         else:
             fwd = DTCWTForward(biort=fb, qshift=fq, J=J)
+    if case.get('other_precision_first'):
+        # earlier in the module's life: one call with an input of the other precision (outcome ignored)
+        r.label('after_other_precision_call')
+        dwtu.other_precision_call(fwd, [1, 1, 8, 8], tdt)
     g = 1.0
     if H * W <= 192:
         r.label('full_operator')
